@@ -30,6 +30,27 @@ Theorem C03_inside : forall o its, its <> [] -> opts_ok o -> items_ok its ->
 Proof. exact C03_inside_lemma. Qed.
 Print Assumptions C03_inside.
 
+(* WITHOUT the slack delta the statement is false -- of the model and of the
+   code alike (known finding "soft-wall-slack"): the property text's "inside
+   the bounds to within 0.5 rounding whenever the items fit" fails for targets
+   far beyond a bound.  Witness: minPos 0, maxPos 100, labels (1e11, width 10)
+   and (50, width 10): the layer needs 23 of the 100 units, yet the first label
+   is reported at 105, its right edge at 110 > 100 + 1/2. *)
+Theorem C03_inside_tight_refuted : exists o its i a z M,
+  its <> [] /\ opts_ok o /\ items_ok its /\ fits o (sorted_items its) /\
+  maxP o = Some M /\
+  nth_error (sorted_items its) i = Some a /\ nth_error (solve_layer o its) i = Some z /\
+  M + (1 # 2) < inject_Z z + wid a / 2.
+Proof.
+  exists (mkOpts 3 2 (Some 0) (Some 100)).
+  exists [mkItem 100000000000 10 false; mkItem 50 10 false].
+  exists 1%nat, (mkItem 100000000000 10 false), 105%Z, 100.
+  split; [discriminate|]. split; [split; discriminate|].
+  split; [repeat constructor; discriminate|].
+  vm_compute. repeat split; try reflexivity; discriminate.
+Qed.
+Print Assumptions C03_inside_tight_refuted.
+
 (* delta is negligible: with targets within Mg of [minP, maxP] it is at most
    n (maxP - minP + Mg) / 1e10  (1000 labels on a 10^4-unit timeline: 1e-3) *)
 Theorem C03_delta_bound : forall o its m M Mg, its <> [] -> opts_ok o -> items_ok its ->
